@@ -71,7 +71,9 @@ Definition expected_path (r : rule) (u : hurl) : string :=
 
 (** * the query *)
 
-(** [q'] is [q] with the parameters [names] removed: byte for byte if there is
+(** (key-by-key form, used by the units evaluator and by C15_query_only_removed;
+    [spec_ok] uses the strict [query_clause] below)
+    [q'] is [q] with the parameters [names] removed: byte for byte if there is
     nothing to remove from; otherwise key by key — every removed key is gone,
     every other key has the same values in the same order (the encoding of a
     pair and the order of different keys are not part of the property) *)
@@ -168,7 +170,7 @@ Definition passed_on (hin : header) (k : string) : list string :=
     canonical, not Host): forwarding information extended by the peer; the
     pipeline's values; otherwise the client's own field unless it is one that is
     never passed.  Cookies of the pipeline are appended to the Cookie field.
-    Parameters: [all] every pipeline value (C13-F3 repaired), [pipeline_first]
+    Arguments: [all] every pipeline value (C13-F3 repaired), [pipeline_first]
     the pipeline wins on a forwarding header (C15-F4 repaired), [al] all field
     lines of a forwarding header count (C15-F7 repaired). *)
 Definition handed_over (all pipeline_first al : bool) (q : request) (pl : pipeline) (k : string) : list string :=
